@@ -1,5 +1,6 @@
 import RSV.Model.Frames
 import RSV.Props.C02
+import RSV.Props.Consts
 
 /-!
 # C09 — operations write only where the contract allows
@@ -313,6 +314,10 @@ example : reconFrame 2 1 (fun i => decide (i.val = 1)) .all (fun _ => true) = [.
 example : reconFrame 2 2 (fun i => decide (2 ≤ i.val)) (.some [false, true, false, false] true)
     (fun i => decide (i.val = 0)) = [.u, .a, .u, .u] := by decide
 
+/-- the alignment constants of `AllocAligned` regenerated from the Go source -/
+theorem C09_alloc_constants : RSV.Gen.unsafe_alignEach = 64 ∧ RSV.Gen.unsafe_alignStart = 64 := RSV.Props.Consts.alloc_constants
+
+
 end RSV.Props.C09
 
 #print axioms RSV.Props.C09.C09_alloc
@@ -338,3 +343,4 @@ end RSV.Props.C09
 #print axioms RSV.Props.C09.C09_recon_written_iff_filled
 #print axioms RSV.Props.C09.C09_recon_matches_model
 #print axioms RSV.Props.C09.C09_recon_too_few_untouched
+#print axioms RSV.Props.C09.C09_alloc_constants
